@@ -112,6 +112,21 @@ func cmdKvs(fs *flag.FlagSet, args []string) {
 				}
 			}()
 			emit("kput %s => %s", strings.Join(toks, ","), res)
+			// the order in which this put takes its keys' locks
+			var ks, os []string
+			for _, p := range pairs {
+				ks = append(ks, fmt.Sprintf("%d", p.Key))
+			}
+			for _, k := range kvs.VerifLockOrder(pairs) {
+				os = append(os, fmt.Sprintf("%d", k))
+			}
+			if len(ks) == 0 {
+				ks = []string{"-"}
+			}
+			if len(os) == 0 {
+				os = []string{"-"}
+			}
+			emit("klockorder %s => %s", strings.Join(ks, ","), strings.Join(os, ","))
 		}
 		store.Delete()
 	}
